@@ -290,16 +290,21 @@ Proof.
 Qed.
 
 (* ---- the full statement ---- *)
-Theorem c02_full (toks : list token_type) : c02_agree toks = true.
+(* whenever the reference is defined: the trimmed token list is an operator expression,
+   and the reference tree is that of the trimmed list with shifted token indices *)
+Lemma pratt_trimmed (toks : list token_type) T :
+  pratt toks = Some T ->
+  exists T0, operator_expression (snd (trim_tokens toks)) = true /\
+             pratt (snd (trim_tokens toks)) = Some T0 /\
+             T = shift_rtree (fst (trim_tokens toks)) T0.
 Proof.
-  unfold c02_agree. destruct (pratt toks) as [T|] eqn:Hpr; [|reflexivity].
+  intros Hpr.
   unfold pratt in Hpr. destruct (items_of toks 0 None false) as [its|] eqn:Hits; [|discriminate].
   destruct (climb (4 * length its + 8) INF None its) as [[T1 [|c rc]]|] eqn:Hcl; try discriminate.
   injection Hpr as ->.
   pose proof (items_of_fragment _ _ _ _ _ Hits) as Hfrag.
-  (* what trim_tokens does *)
   set (l1 := drop_while_trim toks). set (a := length toks - length l1). set (mid := strip_back l1).
-  assert (Htrim : trim_tokens toks = (a, mid)) by reflexivity.
+  assert (Htrim : trim_tokens toks = (a, mid)) by reflexivity. rewrite Htrim. cbn [fst snd].
   pose proof (drop_while_trim_fragment _ Hfrag) as Hfrag1. fold l1 in Hfrag1.
   assert (Hmid : items_of mid a None false = Some its).
   { unfold mid. rewrite (items_of_strip_back l1 a None false Hfrag1).
@@ -312,24 +317,47 @@ Proof.
   destruct (climb (4 * length its0 + 8) INF None its0) as [[T0 r0]|] eqn:Hcl0; [|discriminate Hcl].
   cbn [option_map shift_res fst snd] in Hcl. injection Hcl as <- Hr0.
   destruct r0; [|discriminate Hr0].
-  (* the trimmed list is an operator expression *)
   pose proof (climb_wf _ _ _ _ _ _ Hcl0 0 eq_refl) as Hwf. cbn [is_some] in Hwf.
   pose proof (items_tokens_wf mid 0 None false its0 false 0 Hits0 eq_refl Hwf) as Hloose.
   assert (Hne : mid <> []).
   { intros E. rewrite E in Hits0. injection Hits0 as <-. discriminate Hwf. }
-  assert (Hop : operator_expression mid = true).
-  { destruct (strip_back_last l1) as [E|(r1 & x & E & Hx)]; [fold mid in E; congruence|]. fold mid in E.
+  exists T0. split; [|split; [|reflexivity]].
+  - destruct (strip_back_last l1) as [E|(r1 & x & E & Hx)]; [fold mid in E; congruence|]. fold mid in E.
     destruct mid as [|v rest] eqn:Em; [congruence|]. unfold operator_expression.
     apply andb_true_iff. split.
-    - destruct (strip_back_prefix l1) as [sfx Es]. fold mid in Es. rewrite Em in Es.
+    + destruct (strip_back_prefix l1) as [sfx Es]. fold mid in Es. rewrite Em in Es.
       pose proof (drop_while_trim_head toks) as Hh. fold l1 in Hh. rewrite Es in Hh. cbn [app] in Hh.
       apply negb_true_iff. destruct (is_space_tok v) eqn:Ev; [|reflexivity].
       rewrite (space_is_trim v Ev) in Hh. discriminate Hh.
-    - apply opexpr_strict; [exact Hloose|discriminate|].
-      intros r2 y Ey. rewrite E in Ey. apply app_inj_tail in Ey. destruct Ey as [_ <-]. exact Hx. }
-  destruct (opexpr_parse mid Hop) as (T & ns & Hpr & Hp & DT & Hsz).
-  unfold pratt in Hpr. rewrite Hits0, Hcl0 in Hpr. injection Hpr as ->.
-  unfold parse. rewrite Htrim. cbn [fst snd]. rewrite Hp.
-  rewrite (tree_of_denotes_off ns a T None _ DT) by lia.
+    + apply opexpr_strict; [exact Hloose|discriminate|].
+      intros r2 y Ey. rewrite E in Ey. apply app_inj_tail in Ey. destruct Ey as [_ <-]. exact Hx.
+  - unfold pratt. rewrite Hits0, Hcl0. reflexivity.
+Qed.
+
+(* ... and parse returns the index-carrying tree of the trimmed list *)
+Lemma pratt_parse (toks : list token_type) T :
+  pratt toks = Some T ->
+  exists Tn ns its,
+    items_of (snd (trim_tokens toks)) 0 None false = Some its /\ Forall item_ranked its /\
+    spine_insert its = Some Tn /\
+    parse toks = Ok (nid Tn, ns) /\ denotes ns None Tn /\ ordered Tn /\ lo Tn = 0 /\
+    (forall j, j < length ns -> has_id Tn j) /\
+    T = shift_rtree (fst (trim_tokens toks)) (erase Tn).
+Proof.
+  intros Hpr. destruct (pratt_trimmed toks T Hpr) as (T0 & Hop & Hpr0 & ->).
+  destruct (opexpr_parse_strong _ Hop) as (Tn & ns & its & Hitems & Hrk & Hins & Hp & DT & OT & LoT & CovT).
+  exists Tn, ns, its. repeat split; try assumption.
+  f_equal. unfold pratt in Hpr0. rewrite Hitems in Hpr0.
+  rewrite (spine_insert_climb _ Tn _ Hrk Hins) in Hpr0 by lia. injection Hpr0 as <-. reflexivity.
+Qed.
+
+Theorem c02_full (toks : list token_type) : c02_agree toks = true.
+Proof.
+  unfold c02_agree. destruct (pratt toks) as [T|] eqn:Hpr; [|reflexivity].
+  destruct (pratt_parse toks T Hpr) as (Tn & ns & its & _ & _ & _ & Hp & DT & OT & _ & _ & ->).
+  rewrite Hp.
+  pose proof (ordered_size Tn OT) as Hsz.
+  assert (Hhi : hi Tn < length ns) by (eapply denotes_lt; [exact DT|apply has_id_hi]).
+  rewrite (tree_of_denotes_off ns _ Tn None _ DT) by lia.
   apply rtree_eqb_refl.
 Qed.
